@@ -6,41 +6,99 @@ import (
 	"go/constant"
 	"go/token"
 	"go/types"
+	"unicode"
 
 	"golang.org/x/tools/go/packages"
+	"golang.org/x/tools/go/types/typeutil"
 
 	"verif/internal/load"
 	"verif/internal/report"
 )
 
-// evalBytePred evaluates a pure `func(r byte) bool` whose body is a single
-// return of comparisons combined with && || ! for byte b.
+// evalBytePred evaluates a pure `func(r byte) bool` for byte b. The fragment:
+// returns, if/else, switch (tagless, or on an integer expression), comparisons
+// of integer expressions over the parameter and constants (+ - | & ^,
+// conversions), && || !, calls of other predicates of the same package with the
+// same shape, and the unicode.Is… predicates on rune(parameter).
 func evalBytePred(pk *packages.Package, fd *ast.FuncDecl, b byte) (bool, error) {
-	if fd.Type.Params.NumFields() != 1 || len(fd.Body.List) != 1 {
-		return false, fmt.Errorf("not a single-parameter, single-statement function")
+	return evalPred(pk, fd, int64(b), 0)
+}
+
+func evalPred(pk *packages.Package, fd *ast.FuncDecl, arg int64, depth int) (bool, error) {
+	if depth > 4 {
+		return false, fmt.Errorf("predicates call each other too deeply")
 	}
-	ret, ok := fd.Body.List[0].(*ast.ReturnStmt)
-	if !ok || len(ret.Results) != 1 {
-		return false, fmt.Errorf("body is not a single return")
+	if fd.Type.Params.NumFields() != 1 || len(fd.Type.Params.List[0].Names) != 1 || fd.Body == nil {
+		return false, fmt.Errorf("not a single-parameter function")
 	}
-	param := pk.TypesInfo.Defs[fd.Type.Params.List[0].Names[0]]
+	info := pk.TypesInfo
+	param := info.Defs[fd.Type.Params.List[0].Names[0]]
 	var num func(e ast.Expr) (int64, error)
+	var cond func(e ast.Expr) (bool, error)
+	mask := func(e ast.Expr, v int64) int64 {
+		if tv, ok := info.Types[e]; ok && tv.Type != nil {
+			if bt, ok := tv.Type.Underlying().(*types.Basic); ok {
+				switch bt.Kind() {
+				case types.Uint8:
+					return v & 0xff
+				case types.Uint16:
+					return v & 0xffff
+				case types.Int8:
+					return int64(int8(v))
+				}
+			}
+		}
+		return v
+	}
 	num = func(e ast.Expr) (int64, error) {
 		if p, ok := e.(*ast.ParenExpr); ok {
 			return num(p.X)
 		}
-		if tv := pk.TypesInfo.Types[e]; tv.Value != nil {
+		if tv := info.Types[e]; tv.Value != nil {
 			if v, ok := constant.Int64Val(constant.ToInt(tv.Value)); ok {
 				return v, nil
 			}
 		}
-		if id, ok := e.(*ast.Ident); ok && pk.TypesInfo.Uses[id] == param {
-			return int64(b), nil
+		switch x := e.(type) {
+		case *ast.Ident:
+			if info.Uses[x] == param {
+				return arg, nil
+			}
+		case *ast.CallExpr:
+			if tv, ok := info.Types[x.Fun]; ok && tv.IsType() && len(x.Args) == 1 {
+				v, err := num(x.Args[0])
+				return mask(x, v), err
+			}
+		case *ast.BinaryExpr:
+			l, err := num(x.X)
+			if err != nil {
+				return 0, err
+			}
+			r, err := num(x.Y)
+			if err != nil {
+				return 0, err
+			}
+			switch x.Op {
+			case token.ADD:
+				return mask(x, l+r), nil
+			case token.SUB:
+				return mask(x, l-r), nil
+			case token.OR:
+				return mask(x, l|r), nil
+			case token.AND:
+				return mask(x, l&r), nil
+			case token.XOR:
+				return mask(x, l^r), nil
+			case token.AND_NOT:
+				return mask(x, l&^r), nil
+			}
 		}
 		return 0, fmt.Errorf("operand %s is neither the parameter nor a constant", types.ExprString(e))
 	}
-	var cond func(e ast.Expr) (bool, error)
 	cond = func(e ast.Expr) (bool, error) {
+		if tv := info.Types[e]; tv.Value != nil && tv.Value.Kind() == constant.Bool {
+			return constant.BoolVal(tv.Value), nil
+		}
 		switch x := e.(type) {
 		case *ast.ParenExpr:
 			return cond(x.X)
@@ -49,6 +107,43 @@ func evalBytePred(pk *packages.Package, fd *ast.FuncDecl, b byte) (bool, error) 
 				v, err := cond(x.X)
 				return !v, err
 			}
+		case *ast.CallExpr:
+			if len(x.Args) != 1 {
+				break
+			}
+			a, err := num(x.Args[0])
+			if err != nil {
+				return false, err
+			}
+			fn, _ := typeutil.Callee(info, x).(*types.Func)
+			if fn == nil {
+				break
+			}
+			if fn.Pkg() != nil && fn.Pkg().Path() == "unicode" {
+				switch fn.Name() {
+				case "IsLetter":
+					return unicode.IsLetter(rune(a)), nil
+				case "IsDigit":
+					return unicode.IsDigit(rune(a)), nil
+				case "IsNumber":
+					return unicode.IsNumber(rune(a)), nil
+				case "IsUpper":
+					return unicode.IsUpper(rune(a)), nil
+				case "IsLower":
+					return unicode.IsLower(rune(a)), nil
+				case "IsSpace":
+					return unicode.IsSpace(rune(a)), nil
+				case "IsPunct":
+					return unicode.IsPunct(rune(a)), nil
+				}
+			}
+			if fn.Pkg() == pk.Types {
+				for _, d := range load.FuncDecls(pk) {
+					if info.Defs[d.Name] == fn {
+						return evalPred(pk, d, a, depth+1)
+					}
+				}
+			}
 		case *ast.BinaryExpr:
 			switch x.Op {
 			case token.LAND, token.LOR:
@@ -56,15 +151,32 @@ func evalBytePred(pk *packages.Package, fd *ast.FuncDecl, b byte) (bool, error) 
 				if err != nil {
 					return false, err
 				}
-				r, err := cond(x.Y)
-				if err != nil {
-					return false, err
+				if x.Op == token.LAND && !l {
+					return false, nil
 				}
-				if x.Op == token.LAND {
-					return l && r, nil
+				if x.Op == token.LOR && l {
+					return true, nil
 				}
-				return l || r, nil
+				return cond(x.Y)
 			case token.LSS, token.LEQ, token.GTR, token.GEQ, token.EQL, token.NEQ:
+				if tv, ok := info.Types[x.X]; ok && tv.Type != nil {
+					if bt, ok := tv.Type.Underlying().(*types.Basic); ok && bt.Info()&types.IsBoolean != 0 {
+						l, err := cond(x.X)
+						if err != nil {
+							return false, err
+						}
+						r, err := cond(x.Y)
+						if err != nil {
+							return false, err
+						}
+						if x.Op == token.EQL {
+							return l == r, nil
+						}
+						if x.Op == token.NEQ {
+							return l != r, nil
+						}
+					}
+				}
 				l, err := num(x.X)
 				if err != nil {
 					return false, err
@@ -89,9 +201,123 @@ func evalBytePred(pk *packages.Package, fd *ast.FuncDecl, b byte) (bool, error) 
 				}
 			}
 		}
-		return false, fmt.Errorf("expression %s is outside the fragment (comparisons of the parameter with constants, && || !)", types.ExprString(e))
+		return false, fmt.Errorf("expression %s is outside the fragment (comparisons of the parameter with constants, && || !, predicates)", types.ExprString(e))
 	}
-	return cond(ret.Results[0])
+	// exec: (value, returned, error)
+	var exec func(list []ast.Stmt) (bool, bool, error)
+	exec = func(list []ast.Stmt) (bool, bool, error) {
+		for _, s := range list {
+			switch x := s.(type) {
+			case *ast.ReturnStmt:
+				if len(x.Results) != 1 {
+					return false, false, fmt.Errorf("return without a single value")
+				}
+				v, err := cond(x.Results[0])
+				return v, true, err
+			case *ast.BlockStmt:
+				if v, r, err := exec(x.List); r || err != nil {
+					return v, r, err
+				}
+			case *ast.IfStmt:
+				if x.Init != nil {
+					return false, false, fmt.Errorf("if with an init statement")
+				}
+				c, err := cond(x.Cond)
+				if err != nil {
+					return false, false, err
+				}
+				if c {
+					if v, r, err := exec(x.Body.List); r || err != nil {
+						return v, r, err
+					}
+				} else if x.Else != nil {
+					if v, r, err := exec([]ast.Stmt{x.Else}); r || err != nil {
+						return v, r, err
+					}
+				}
+			case *ast.SwitchStmt:
+				if x.Init != nil {
+					return false, false, fmt.Errorf("switch with an init statement")
+				}
+				var tag int64
+				var tagBool, isBool bool
+				if x.Tag != nil {
+					if tv, ok := info.Types[x.Tag]; ok && tv.Type != nil {
+						if bt, ok := tv.Type.Underlying().(*types.Basic); ok && bt.Info()&types.IsBoolean != 0 {
+							isBool = true
+						}
+					}
+					var err error
+					if isBool {
+						tagBool, err = cond(x.Tag)
+					} else {
+						tag, err = num(x.Tag)
+					}
+					if err != nil {
+						return false, false, err
+					}
+				}
+				var chosen, def *ast.CaseClause
+				for _, c := range x.Body.List {
+					cc := c.(*ast.CaseClause)
+					if cc.List == nil {
+						def = cc
+						continue
+					}
+					if chosen != nil {
+						continue
+					}
+					for _, ce := range cc.List {
+						var hit bool
+						var err error
+						switch {
+						case x.Tag == nil:
+							hit, err = cond(ce)
+						case isBool:
+							var v bool
+							v, err = cond(ce)
+							hit = v == tagBool
+						default:
+							var v int64
+							v, err = num(ce)
+							hit = v == tag
+						}
+						if err != nil {
+							return false, false, err
+						}
+						if hit {
+							chosen = cc
+							break
+						}
+					}
+				}
+				if chosen == nil {
+					chosen = def
+				}
+				if chosen != nil {
+					for _, st := range chosen.Body {
+						if bs, ok := st.(*ast.BranchStmt); ok {
+							return false, false, fmt.Errorf("%s in a switch", bs.Tok)
+						}
+					}
+					if v, r, err := exec(chosen.Body); r || err != nil {
+						return v, r, err
+					}
+				}
+			default:
+				return false, false, fmt.Errorf("statement %T is outside the fragment", s)
+			}
+		}
+		return false, false, nil
+	}
+	v, returned, err := exec(fd.Body.List)
+	if err != nil {
+		return false, err
+	}
+	if !returned {
+		return false, fmt.Errorf("a path through the body does not return")
+	}
+	return v, nil
 }
 
 // PHP's label characters: [A-Za-z_\x80-\xff][A-Za-z0-9_\x80-\xff]*
